@@ -943,6 +943,12 @@ SPECIAL: List[Tuple[Optional[str], str, List[Any]]] = [
     ("worker_app.errors", "SecurityError", ["x"]), ("worker_app.errors", "TaskiqError", []), ("remote.lib", "NoResultError", []),
     ("remote.lib", "exception_to_python", ["x"]), (None, "SecurityError", ["x"]), ("worker_app.errors", "ValueError", ["v"]),
     ("worker_app.errors", "charge.<locals>.QuotaExceeded", ["q"]), (None, "Outer.Inner", [1]),
+    # the library's own stand-in for unpicklable errors is an exception class like any other: a stored error may name
+    # it, with values of any shape (they are data: nothing in them may be looked up, called or iterated blindly)
+    ("taskiq.serialization", "_UnpickleableExceptionWrapper", ["builtins", 5, ["x"], "repr"]),
+    ("taskiq.serialization", "_UnpickleableExceptionWrapper", ["trapmod", "Boom", 7, "repr"]),
+    ("taskiq.serialization", "_UnpickleableExceptionWrapper", ["trapmod", None, None, None]),
+    ("taskiq.serialization", "_UnpickleableExceptionWrapper", ["builtins", "KeyError", ["k"], "KeyError('k')"]),
 ]
 
 ARGS_POOL: List[List[Any]] = [[], ["x"], ["echo pwned"], [1, 2], [["nested"]], [{"k": "v"}], ["a", "b", "c"], [None]]
